@@ -433,6 +433,38 @@ def native_key_pairs(tier, seed):
                 failures.append(dict(key=f"{cls}#{bi}|keyable",
                                      what=f"{type(e).__name__}: {e}"))
                 continue
+            # "the same ... for every structurally equal graph": the entries
+            # of a mapping field inserted in the opposite order
+            from collections.abc import Mapping
+            for f in fields:
+                v = getattr(base, f)
+                if not isinstance(v, Mapping) or len(v) < 2 or \
+                        dc.is_dataclass(v):
+                    continue
+                rev = type(v)(list(v.items())[::-1])
+                try:
+                    other = dc.replace(base, **{f: rev})
+                except TypeError:
+                    try:
+                        other = type(base)(rev, tags=base.tags)
+                    except Exception:  # noqa: BLE001
+                        continue
+                n += 1
+                try:
+                    differs = other == base and \
+                        PytatoKeyBuilder()(other) != k0
+                except Exception:  # noqa: BLE001
+                    # (a rebuilt sample that cannot be compared or keyed --
+                    # e.g. a call whose results refer to the original)
+                    continue
+                if differs:
+                    failures.append(dict(
+                        key=f"{cls}.{f}#{bi}|entries-in-opposite-order",
+                        what=f"two equal {cls} nodes whose '{f}' holds the "
+                             f"same entries inserted in opposite order "
+                             f"({list(v)}) get different persistent keys",
+                        replay_src=NATIVE_PERMUTED_REPLAY.format(cls=cls,
+                                                                 field=f)))
             for field in [*fields, *nested]:
                 for vi, other in enumerate(variants(base, field)):
                     if not (base != other):
@@ -462,6 +494,32 @@ def native_key_pairs(tier, seed):
                 failures=failures,
                 note="real PytatoKeyBuilder on sample nodes x single-field "
                      "variants x {fresh builder, children keyed first}")
+
+
+NATIVE_PERMUTED_REPLAY = '''
+import sys
+sys.path.insert(0, "/verif")
+import dataclasses as dc
+from collections.abc import Mapping
+from pyvc.replay_nodes import sample_node
+from pyvc.replaylib import reproduced, not_reproduced
+from pytato.analysis import PytatoKeyBuilder
+cls, field = {cls!r}, {field!r}
+for base in sample_node(cls):
+    v = getattr(base, field)
+    if not isinstance(v, Mapping) or len(v) < 2 or dc.is_dataclass(v):
+        continue
+    rev = type(v)(list(v.items())[::-1])
+    try:
+        other = dc.replace(base, **{{field: rev}})
+    except TypeError:
+        other = type(base)(rev, tags=base.tags)
+    if other == base and PytatoKeyBuilder()(other) != PytatoKeyBuilder()(base):
+        reproduced(f"two equal {{cls}} nodes whose '{{field}}' holds the same entries "
+                   f"inserted in opposite order ({{list(v)}} / {{list(rev)}}) get "
+                   f"different persistent keys")
+not_reproduced("equal nodes, equal keys")
+'''
 
 
 NATIVE_PAIR_REPLAY = '''
